@@ -102,6 +102,7 @@ def run(ctx):
                             ctx.violation('%s %s is not shift-equivariant (shift %s, defect %.3g, %dx%d)' % (api, name, (s, t), d, n, m),
                                           dict(rec, shift=[s, t]), {'api': api, 'method': name, 'what': 'shift_equivariance'})
 
+    W.storage_independence(ctx, 'C03')
     from .genpipelines import check_generated_pipelines; check_generated_pipelines(ctx)   # pipelines regenerated from the source vs implementation
 
     # ---- propagator.__call__ (forward model object): default binary and non-binary apertures, first and repeated calls on one object
